@@ -104,6 +104,26 @@ func (s *Sched) FreeRun() {
 	s.mu.Unlock()
 }
 
+// ReleaseWhere releases every parked goroutine whose arrival matches, whether
+// or not the arrival has been consumed by Await, and drops matching pending
+// arrivals.
+func (s *Sched) ReleaseWhere(match func(*Arrival) bool) {
+	s.mu.Lock()
+	defer s.mu.Unlock()
+	for a := range s.held {
+		if match(a) {
+			a.releaseLocked()
+		}
+	}
+	keep := s.pending[:0]
+	for _, a := range s.pending {
+		if !match(a) {
+			keep = append(keep, a)
+		}
+	}
+	s.pending = keep
+}
+
 // ErrTimeout is returned by Await when nothing matching arrived in time.
 type ErrTimeout struct{ Pending []string }
 
